@@ -213,8 +213,11 @@ def run_cond(case, out, stats):
                     return      # already resumed into the (shield-protected) re-acquire: native cancel out of domain
                 if target in inwait and target not in queue and target not in marked:
                     return      # a zombie: one cancellation is already on its way
-                if marked.get(target) != sim.now() and any(joined.get(target, -99) <= c + 2 for c in credits):
-                    return      # may secretly hold a passed-on notification (already re-acquiring): out of domain
+                if any(joined.get(target, -99) <= c + 2 and c < sim.now() for c in credits):
+                    # may secretly hold a passed-on notification and sit in the shielded re-acquire, which a native
+                    # cancel would cut through: out of domain. (A credit created in this very cycle cannot have been
+                    # passed on yet: its cancelled waiter has not run since.)
+                    return
                 if sim.native_cancel(target):
                     note_cancel(target)
                     if target in marked:
